@@ -160,7 +160,8 @@ def build_v_result(wmap, out, diags, vp, wd):
         vname = 'etherparse::%s::%s' % (modpath_of(m['file']), qual) if m['file'] != 'lib.rs' else 'etherparse::' + qual
         fns[m['fn'] + '@' + m['file']] = dict(fn=m['fn'], file=m['file'], vname=vname, tags=m['tags'], orig_line=m['orig_line'],
                                               woven=(m.get('woven_start'), m.get('woven_end')), clauses=m.get('clauses', []),
-                                              rewrites=m.get('rewrites', {}), contract=m.get('contract'), status='unknown', diags=[], time_us=0)
+                                              rewrites=m.get('rewrites', {}), contract=m.get('contract'), status='unknown', diags=[], time_us=0,
+                                              assumed=m.get('assumed', False))
     problems = list(wmap.get('problems', []))
     status = 'ok'
     if out is None:
@@ -408,6 +409,9 @@ def decide(prop, tier, seed):
             undecided.append('specification-side lemma(s) failed: ' + ', '.join(v['spec_failed'][:5]))
         nfn = 0
         for k, f in sorted(mine.items()):
+            if f.get('assumed'):
+                trusted.append('assumed contract (external_body, not verified by Verus): %s in %s' % (f['fn'], f['file']))
+                continue
             nfn += 1
             fns_under_contract.append('%s (%s:%d)' % (f['fn'], f['file'], f['orig_line']))
             obligations += 1
